@@ -1,11 +1,11 @@
 """C16 Code is treated as unreachable or pointless only when it really is."""
 from pyvc.tables import run_gen
-from contracts import x_has_side_effect, x_is_blocking, c_blocking, c_safe_callables
+from contracts import x_has_side_effect, x_is_blocking, c_blocking, c_safe_callables, c_dead_code
 from standins import c16_exec
 
 
 def units():
-    return c_blocking.UNITS + c_safe_callables.UNITS
+    return c_blocking.UNITS + c_safe_callables.UNITS + c_dead_code.UNITS
 
 
 def extra(tier, seed):
@@ -29,7 +29,10 @@ META = {
                    "break/continue of this very loop occurs in the body' (loop invariant, partial correctness). parsing.safe_callable_names: the loop that "
                    "collects the statements deciding whether a call is pointless inspects every statement up to and including the first blocking one, "
                    "a plain return excepted (loop invariant over the real slice, is_blocking uninterpreted), and the real function refuses each kind "
-                   "of ambiguous definition (17 representative modules, evaluated). The emptiness test of is_blocking's For branch is the real "
+                   "of ambiguous definition (17 representative modules, evaluated). Consumers: _iter_unreachable_nodes yields only statements that follow a blocking one (loop invariant), "
+                   "delete_pointless_statements yields a statement only if has_side_effect (with this module's safe-callable set) is false, and every "
+                   "deletion of delete_unreachable_code is justified by is_blocking or by a constant test with the other branch non-empty (yield "
+                   "obligations, analyses uninterpreted). The emptiness test of is_blocking's For branch is the real "
                    "expression evaluated on 27 kinds of iterable. Bounded part (NOT proof): the local "
                    "conditions (binding, call whitelist), safe-callable inference (536 callee programs) and the consumer rules are checked by executing enumerated statement shapes "
                    "under all valuations with a trace hook.",
